@@ -684,6 +684,7 @@ def assemble(unit_path, repo, vf_dir):
     silent = []
     defs = {}
     expansions = {}
+    emitted_items = set()
     while i < len(lines):
         ln = lines[i]
         s = ln.strip()
@@ -787,10 +788,26 @@ def assemble(unit_path, repo, vf_dir):
             m = re.match(r'%subst\s+/(.*)/\s*=>\s*(.*)$', s)
             unit_subst.append((m.group(1), m.group(2)))
             i += 1
+        elif s.startswith('%allconsts'):
+            # every top-level `const NAME: <integer type> = <expr>;` of the current %file that has not been emitted
+            # yet (a change that introduces a new constant must not lose the extraction of the functions using it)
+            lo, hi = cur_range()
+            for cm in re.finditer(r'(?m)^(?:pub(?:\([a-z]+\))?\s+)?const\s+([A-Z][A-Z0-9_]*)\s*:\s*(u8|u16|u32|u64|usize|i8|i16|i32|i64)\s*=\s*([^;{}]*);', mask[lo:hi]):
+                nm = cm.group(1)
+                if nm in emitted_items or not re.match(r'^[0-9xXa-fA-F_\s*+\-()<>|&]+$', cm.group(3).strip()):
+                    continue   # only constants whose value is a literal expression (enum casts etc. need an explicit %item)
+                a0 = lo + cm.start()
+                text = re.sub(r'pub\(crate\)', 'pub', src[a0:lo + cm.end()])
+                emitted_items.add(nm)
+                A.emit(text)
+                A.counts.hit('D9_items_extracted')
+                A.functions.append(dict(name='const ' + nm, file=cur_file, sha256=hashlib.sha256(text.encode()).hexdigest(), container=''))
+            i += 1
         elif s.startswith('%item'):
             w = s.split()
             kind, name = w[1], w[2]
             opts = parse_opts(w[3:])
+            emitted_items.add(name)
             lo, hi = cur_range()
             a, b = find_item(src, mask, lo, hi, kind, name)
             text = src[a:b]
@@ -955,6 +972,15 @@ def assemble(unit_path, repo, vf_dir):
                 text_sig = re.sub(r'\bfn\s+' + re.escape(f.name) + r'\b', 'fn ' + f.newname, text_sig, count=1)
             if not opts.get('no_name_return'):
                 text_sig, rty = name_return(text_sig, A.counts)
+            # D6b: a parameter spelled `_x` (unused in the body) while the contract text names it `x`: the leading
+            # underscore is dropped in the signature and the body, so that marking a parameter unused does not lose the contract
+            ctext = '\n'.join(f.clauses)
+            for pm in re.finditer(r'[(,]\s*(?:mut\s+)?_([a-z]\w*)\s*:', text_sig):
+                nm = pm.group(1)
+                if re.search(r'\b' + re.escape(nm) + r'\b', ctext) and not re.search(r'(?<![\w.])' + re.escape(nm) + r'\b', text_sig.replace('_' + nm, '')):
+                    text_sig = re.sub(r'\b_' + re.escape(nm) + r'\b', nm, text_sig)
+                    body = re.sub(r'\b_' + re.escape(nm) + r'\b', nm, body)
+                    A.counts.hit('D6b_underscore_param_renamed')
             # elided `'_`/no lifetime stays; D5 handled by the %in replacement header
             for mname, (mparams, mbody) in expansions.items():
                 def expand(args, mparams=mparams, mbody=mbody):
